@@ -9,7 +9,7 @@ from ..draw import composite, RDraw
 
 RULE = ("sequences over the file classes {clean, notice-only, erroneous, fatally unparsable}: ALL sequences of length 0..k with repetition "
         "(k=3 quick, 4 thorough) + Hypothesis-sampled longer ones, each run as explicit path arguments in that order (a repeated class = the "
-        "same path mentioned again) and as one directory argument holding distinct copies; class representatives are generated per run; "
+        "same path mentioned again) and as one directory argument holding distinct copies; class representatives are generated per shard, and the way a class is reached rotates (notice: global-variable notice / unknown escape in a string or character constant / empty \\x / both; error: rule-level / tokenizer-level / rule-level plus tokenizer notice; fatal: garbage statement / #if without argument / garbage tail), the class being decided from the diagnostic levels of an independent in-process run; "
         "oracle (model): one verdict line per mention, OK! iff the file has no Error-level diagnostic (from an independent in-process run), "
         "exit status 0 iff every file is OK; a fatal file is named in an Error! block, exit != 0, files before it keep their verdict lines and "
         "no verdict contradicts its file; empty selection: no traceback, exit 0; a sample is cross-checked against the real CLI; "
@@ -18,34 +18,81 @@ RULE = ("sequences over the file classes {clean, notice-only, erroneous, fatally
 CLASSES = ["clean", "notice", "error", "fatal"]
 
 
-def representatives(seed):
+NOTICE_KINDS = ["global", "escape-str", "escape-chr", "hex-empty", "global+escape"]
+ERROR_KINDS = ["operator", "lexer-error", "operator+lexer-notice"]
+FATAL_KINDS = ["garbage-stmt", "empty-if", "garbage-tail"]
+
+
+def classify(text, name="x.c"):
+    """class of a file from the *levels* of its diagnostics in an independent in-process run (never from the tool's own status word)"""
+    r = adapters.analyse(name, text)
+    if r.status == "FATAL":
+        return "fatal"
+    if r.status == "CRASH":
+        return None
+    if r.has_error():
+        return "error"
+    if any(x[0] == "Notice" for x in r.diags):
+        return "notice"
+    return "clean"
+
+
+def _before_last_brace(text, line):
+    lines = text.split("\n")
+    k = max(i for i, l in enumerate(lines) if l == "}")
+    lines.insert(k, line)
+    return "\n".join(lines)
+
+
+LEX_NOTICE = {"escape-str": '\tft_putstr("a\\qb");', "escape-chr": "\tft_putchar('\\j');", "hex-empty": '\tft_putstr("\\x");'}
+
+
+def representatives(seed, variant=0):
+    """one file per class; the way each class is reached rotates with `variant` (diagnostics raised by rules, by the tokenizer, or both)"""
     import random
     d = RDraw(random.Random(seed))
+    nk, ek, fk = NOTICE_KINDS[variant % len(NOTICE_KINDS)], ERROR_KINDS[variant % len(ERROR_KINDS)], FATAL_KINDS[(variant // 2) % len(FATAL_KINDS)]
     reps = {}
-    for _ in range(200):
-        p = prog.gen_c(d, {"small": True})
-        r = adapters.analyse(p.name, p.text)
-        if r.status != "OK" or r.has_error():
+    for _ in range(400):
+        p = prog.gen_c(d, {"small": True, "force": ("global",)} if "global" in nk and "notice" not in reps else {"small": True})
+        c = classify(p.text, p.name)
+        if c == "notice" and "notice" not in reps and nk in ("global", "global+escape"):
+            t = p.text if nk == "global" else _before_last_brace(p.text, LEX_NOTICE["escape-str"])
+            if classify(t) == "notice":
+                reps["notice"] = t
             continue
-        has_notice = any(x[0] == "Notice" for x in r.diags)
-        if has_notice and "notice" not in reps:
-            reps["notice"] = p.text
-        elif not has_notice and "clean" not in reps:
+        if c != "clean":
+            continue
+        if "clean" not in reps:
             reps["clean"] = p.text
-        elif not has_notice and "error" not in reps:
-            q = family.member_of(d, violating=1.0, ftype="c", opts={"small": True})
-            r2 = adapters.analyse(q.name, q.text)
-            if q.variant and r2.status == "Error":
-                reps["error"] = q.text
-        elif not has_notice and "fatal" not in reps:
+        elif "notice" not in reps and nk in LEX_NOTICE:
+            t = _before_last_brace(p.text, LEX_NOTICE[nk])
+            if classify(t) == "notice":
+                reps["notice"] = t
+        elif "error" not in reps:
+            if ek == "lexer-error":
+                t = _before_last_brace(p.text, "\tft_putnbr(%s);" % d.choice(["10uu", "1.5e", "0b12", "089"]))
+            else:
+                q = family.member_of(d, violating=1.0, ftype="c", opts={"small": True})
+                if not q.variant:
+                    continue
+                t = q.text if ek == "operator" else _before_last_brace(q.text, LEX_NOTICE["escape-str"])
+            if classify(t) == "error":
+                reps["error"] = t
+        elif "fatal" not in reps:
             lines = p.text.split("\n")
-            lines.insert(12, "42;")
+            if fk == "garbage-stmt":
+                lines.insert(12, "42;")
+            elif fk == "empty-if":
+                lines.insert(12, "#if")
+            else:
+                lines.append("];")
             t = "\n".join(lines)
-            if adapters.analyse("x.c", t).status == "FATAL":
+            if classify(t) == "fatal":
                 reps["fatal"] = t
         if len(reps) == 4:
-            return reps
-    raise core.HarnessError("could not build class representatives: %s" % sorted(reps))
+            return reps, (nk, ek, fk)
+    raise core.HarnessError("could not build class representatives %s: %s" % ((nk, ek, fk), sorted(reps)))
 
 
 def expected_error(text):
@@ -144,9 +191,11 @@ def all_sequences(k):
             yield seq
 
 
-def shard_exhaustive(seed, seqs, fmts):
+def shard_exhaustive(seed, seqs, fmts, variant=0):
     camp = core.Campaign()
-    reps = representatives(seed)
+    reps, kinds = representatives(seed, variant)
+    for kd in kinds:
+        camp.count("class-kind:" + kd)
     for seq in seqs:
         for mode in ("paths", "dir"):
             for fmt in fmts:
@@ -161,9 +210,11 @@ def long_seq(d):
     return tuple(d.choice(CLASSES) for _ in range(d.int(5, 8))), d.choice(["paths", "dir"]), d.choice(["humanized", "json"])
 
 
-def shard_sampled(seed, n):
+def shard_sampled(seed, n, variant=0):
     camp = core.Campaign()
-    reps = representatives(seed)
+    reps, kinds = representatives(seed, variant)
+    for kd in kinds:
+        camp.count("class-kind:" + kd)
 
     def body(v):
         seq, mode, fmt = v
@@ -175,7 +226,7 @@ def shard_sampled(seed, n):
 
 def cross_check(camp, seed, n):
     """the forked adapter must agree with the real CLI (harness self-validation)"""
-    reps = representatives(seed)
+    reps, _ = representatives(seed, 1)
     seqs = [(), ("clean",), ("error", "clean"), ("clean", "error"), ("notice",), ("fatal",), ("clean", "fatal"), ("error", "notice", "clean")][:n]
     for seq in seqs:
         for mode in ("paths", "dir"):
@@ -204,8 +255,8 @@ def run(pid, tier, seed):
             camp.fail(kk, what, rc["case"])
     cross_check(camp, core.seed_of(seed, 99, 4), ncross)
     nsh = 16
-    jobs = [dict(fn=shard_exhaustive, kw=dict(seed=core.seed_of(seed, s % 4, 4), seqs=seqs[s::nsh], fmts=fmts)) for s in range(nsh)]
-    jobs += [dict(fn=shard_sampled, kw=dict(seed=core.seed_of(seed, 50 + s, 4), n=nsamp)) for s in range(8)]
+    jobs = [dict(fn=shard_exhaustive, kw=dict(seed=core.seed_of(seed, s % 8, 4), seqs=seqs[s::nsh], fmts=fmts, variant=s)) for s in range(nsh)]
+    jobs += [dict(fn=shard_sampled, kw=dict(seed=core.seed_of(seed, 50 + s, 4), n=nsamp, variant=s + 3)) for s in range(8)]
     camp.merge(core.run_shards(_dispatch, jobs))
     camp.extra["exhaustive_sequences_up_to_length"] = k
     camp.extra["exhaustive_sequence_count"] = len(seqs)
